@@ -48,17 +48,19 @@ E = {
     "impgood2": ("import self.good2;", "import self.good2;", [], ["good2"]),
     "usegood2": ("print('h', good2.h(good2.q), good2.h(good2.q));", "print('h', good2.h(good2.q), good2.h(good2.q));", ["good2"], []),
     "impbad": ("import self.bad;", "", [], ["bad"]),
+    "impbad2": ("import self.bad2;", "", [], ["bad2"]),
     "imprt": ("import self.rt;", "print('rt loading');", [], ["rt"]),
     "loop": ("for i in 2.times() { print('i', i); }", "for i in 2.times() { print('i', i); }", [], []),
 }
 QUICK = ["defx", "updx", "getx", "callgetx", "clsA", "callfoo", "prop", "usefooA", "usepropA", "bad", "raise", "rtfail", "clsB", "usefooB", "faildecl", "faildecl_g", "failimport"]
-IMPORT_ONLY = ["impgood", "usegood", "impgood2", "usegood2", "impbad", "imprt"]
+IMPORT_ONLY = ["impgood", "usegood", "impgood2", "usegood2", "impbad", "impbad2", "imprt"]
 ALL = [k for k in E if k not in IMPORT_ONLY]
-IMPORTS = ["impgood", "usegood", "impgood2", "usegood2", "impbad", "imprt", "failimport", "clsA", "callfoo", "usefooA", "bad", "faildecl"]
+IMPORTS = ["impgood", "usegood", "impgood2", "usegood2", "impbad", "impbad2", "imprt", "failimport", "clsA", "callfoo", "usefooA", "bad", "faildecl"]
 FILES = {
     "/v/good.lay": "export fn g(a) { return a.v; } class P { init() { self.v = 7; } } export let p = P(); print('good loaded', g(p));",
     "/v/good2.lay": "export fn h(a) { return a.w() + a.x; } class Q { init() { self.x = 9; } w() { return 1; } } export let q = Q(); print('good2 loaded', h(q));",
     "/v/bad.lay": "print('bad loading'); let = ;",
+    "/v/bad2.lay": "class { }",
     "/v/rt.lay": "print('rt loading'); export let z = 1; nil.nope(); print('not reached');",
 }
 
@@ -78,7 +80,7 @@ def valid(seq):
 class C19(Check):
     id = "C19"
     level = "exploration"
-    rule = ("all sequences of <= L prompt entries (L=5 quick over a 17 entry alphabet; thorough: L=5 over 28 entries plus L=6 over the 17) plus L=5 (6 thorough) over a 12 entry alphabet of user-module imports (good, failing to compile, raising while loading) that respect "
+    rule = ("all sequences of <= L prompt entries (L=5 quick over a 17 entry alphabet; thorough: L=5 over 28 entries plus L=6 over the 17) plus L=5 (6 thorough) over a 13 entry alphabet of user-module imports (good, failing to compile, raising while loading) that respect "
             "define-before-use; each sequence: Vm::repl with scripted stdin vs Vm::run on the concatenation of the entries that take "
             "effect (lines failing to compile dropped, raising lines wrapped in try); oracle = equal stdout, REPL ends normally. "
             "non-trivial = a sequence in which a later line executes code (call/property/invoke site) compiled on an earlier line")
